@@ -123,6 +123,33 @@ theorem distance_grad_sum_zero (g1 g2 : AGroup ℝ) (h1 : MassOk g1) (h2 : MassO
     V3.add (groupForce (distanceGrad g1 g2).1) (groupForce (distanceGrad g1 g2).2) = V3.zero := by
   exact distance_grad_sum g1 g2 (msum_pos _ h1.1 h1.2).ne' (msum_pos _ h2.1 h2.2).ne'
 
+
+/-! ## angle (degrees) -/
+
+/-- non-degenerate angle: both arms have non-zero length and are not collinear -/
+def AngleOk (g1 g2 g3 : AGroup ℝ) : Prop :=
+  V3.norm (V3.sub (com g1) (com g2)) ≠ 0 ∧ V3.norm (V3.sub (com g3) (com g2)) ≠ 0 ∧
+  -1 < angleCos g1 g2 g3 ∧ angleCos g1 g2 g3 < 1
+
+theorem angle_grad_group1 (g1 g2 g3 : AGroup ℝ) (h1 : MassOk g1) (h2 : MassOk g2) (h3 : MassOk g3)
+    (hok : AngleOk g1 g2 g3) (k : Nat) (hk : k < g1.length) (d : V3 ℝ) :
+    HasDerivAt (fun t : ℝ => angle (move g1 k (V3.smul t d)) g2 g3)
+      (V3.dot ((angleGrad g1 g2 g3).1.getD k V3.zero) d) 0 := by
+  exact angle_grad1 g1 g2 g3 (msum_pos _ h1.1 h1.2).ne' hok.1 hok.2.1 hok.2.2.1 hok.2.2.2 k hk d
+
+theorem angle_grad_group3 (g1 g2 g3 : AGroup ℝ) (h1 : MassOk g1) (h2 : MassOk g2) (h3 : MassOk g3)
+    (hok : AngleOk g1 g2 g3) (k : Nat) (hk : k < g3.length) (d : V3 ℝ) :
+    HasDerivAt (fun t : ℝ => angle g1 g2 (move g3 k (V3.smul t d)))
+      (V3.dot ((angleGrad g1 g2 g3).2.2.getD k V3.zero) d) 0 := by
+  exact angle_grad3 g1 g2 g3 (msum_pos _ h3.1 h3.2).ne' hok.1 hok.2.1 hok.2.2.1 hok.2.2.2 k hk d
+
+/-- the vertex group: its gradient is minus the sum of the gradients of the two arms (per unit of mass share) -/
+theorem angle_grad_group2 (g1 g2 g3 : AGroup ℝ) (h1 : MassOk g1) (h2 : MassOk g2) (h3 : MassOk g3)
+    (hok : AngleOk g1 g2 g3) (k : Nat) (hk : k < g2.length) (d : V3 ℝ) :
+    HasDerivAt (fun t : ℝ => angle g1 (move g2 k (V3.smul t d)) g3)
+      (V3.dot ((angleGrad g1 g2 g3).2.1.getD k V3.zero) d) 0 := by
+  exact angle_grad2 g1 g2 g3 (msum_pos _ h2.1 h2.2).ne' hok.1 hok.2.1 hok.2.2.1 hok.2.2.2 k hk d
+
 /-! ## non-vacuity -/
 example : MassOk [({ m := 12, r := ⟨0, 0, 0⟩ } : Atom ℝ), { m := 1, r := ⟨1, 0, 0⟩ }] := by
   refine ⟨by simp, ?_⟩
